@@ -50,6 +50,12 @@ def run(pid, tier, seed):
       cfgs = sorted(p[1]["__set__"], key=lambda c: json.dumps(c, sort_keys=True))
   if not cfgs:
     raise Machinery("MC_QPo2 printed no lattice")
+  if tier == "quick":
+    # the bounded model stops at 5 bits in the quick tier; the wide formats (exponents up to 2^63, where integer
+    # arithmetic in the range reporters can wrap) are still driven through the real code on a thin slice
+    cfgs = cfgs + [dict(cls=cls, bits=b, hasmv=h, mvk=0, sl=sl, mode=m)
+                   for b in (6, 7, 8) for cls in ("po2", "relu_po2") for h in (False, True)
+                   for sl in ((0,) if cls == "po2" else (0, 1)) for m in (("rnd",) if h else ("rnd", "floor"))]
   results, allev = sharded_conformance(chk, "drive_po2.py", cfgs, "Trace_QPo2", tier, seed, "po2")
   for r in results:
     if r[0] == "error":
